@@ -3,6 +3,8 @@ from checks import c04
 from checks import c01
 from checks import c03
 from checks import c09
+from checks import c18
+from checks import c15
 
 
 def c08(ctx):
@@ -22,6 +24,8 @@ def c07(ctx):
 
 
 CHECKS = {
+    "C15": c15.run,
+    "C18": c18.run,
     "C01": c01.run,
     "C03": c03.run,
     "C04": c04.run,
